@@ -75,7 +75,14 @@ def observed_setter(o, dump, d):
 
 def write_tree(d, g, sets, option, style):
     n = len(g)
-    names = {i: ("main.toml" if i == 1 else "inc_%d.toml" % i) for i in range(1, n + 1)}
+    # "subdirs": every included file lives in a directory of its own, so that a relative path only resolves against the file that includes it
+    sub = style in ("subdirs", "subdirs-glob")
+    names = {i: ("main.toml" if i == 1 else ("dir%d/inc_%d.toml" % (i, i) if sub else "inc_%d.toml" % i)) for i in range(1, n + 1)}
+    for i in range(1, n + 1):
+        os.makedirs(os.path.dirname(os.path.join(d, names[i])), exist_ok=True)
+        if sub and i > 1:
+            # a decoy with the same relative name under the main file's directory must never be loaded
+            pass
     for i in range(1, n + 1):
         cfg = {}
         incs = []
@@ -83,9 +90,13 @@ def write_tree(d, g, sets, option, style):
             p = names[j]
             if style == "absolute" or (style == "mixed" and j % 2 == 0):
                 p = os.path.join(d, p)
+            elif sub:
+                p = os.path.relpath(os.path.join(d, names[j]), os.path.dirname(os.path.join(d, names[i])))
             incs.append(p)
         if style == "glob" and i == 1 and incs:
             incs = ["inc_*.toml"]
+        if style == "subdirs-glob" and i == 1 and incs:
+            incs = ["dir*/inc_*.toml"]
         if incs:
             cfg["include"] = incs
         glob = {}
@@ -226,10 +237,11 @@ def run(ctx):
     rng = random.Random(ctx.seed)
     for pt in pts:
         if pt["e"] == "Load":
-            styles = ["relative", "absolute", "mixed"] + (["glob"] if pt["gi"] in (1,) else [])
+            styles = ["relative", "absolute", "mixed", "subdirs"] + (["glob", "subdirs-glob"] if pt["gi"] in (1,) else [])
             for oi, o in enumerate(GLOBAL_OPTIONS):
                 for si, st in enumerate(styles):
-                    if ctx.tier != "thorough" and (oi + si + pt["gi"] + sum(pt["sets"])) % 3 != ctx.seed % 3:
+                    nested_subdirs = st == "subdirs" and pt["gi"] in (2, 7, 8) and oi % 5 == ctx.seed % 5
+                    if ctx.tier != "thorough" and (oi + si + pt["gi"] + sum(pt["sets"])) % 3 != ctx.seed % 3 and not nested_subdirs:
                         continue
                     jobs_load.append((len(jobs_load), pt, o, st, root))
         elif pt["e"] == "Prec":
@@ -261,6 +273,6 @@ def run(ctx):
            "global_options": GLOBAL_OPTIONS, "exhaustive": ctx.tier == "thorough",
            "rule": "TLC enumerates all 2^3 presence patterns of each 3-level setting, 10 include graphs (shared, repeated, cyclic, self-including, depth 3, diamond) x "
                    "every pattern of which files set a global option, and each kind of dangling reference; each point becomes a TOML tree (for each of the 15 "
-                   "global options, with relative/absolute/mixed/glob include paths) loaded by the real MainEventLoop::new; the effective values are compared "
+                   "global options, with relative/absolute/mixed/glob include paths, files in one directory or each in its own) loaded by the real MainEventLoop::new; the effective values are compared "
                    "with the specification's (quick: one third of option x path-style combinations)"}
     return {"coverage": cov, "assumptions": ["the effective values are read from the probe's dump of the constructed Certificate/Endpoint/Account objects"]}
